@@ -437,6 +437,16 @@ func otelResourceAttributes(mc *meshconfig.MeshConfig, annotations map[string]st
 		return ""
 	}
 
+	// The attributes describe the application: leave out a user supplied customisation of the sidecar, which sits at
+	// another place of the list when the pod is injected again.
+	apps := make([]corev1.Container, 0, len(containers))
+	for _, c := range containers {
+		if c.Name != ProxyContainerName {
+			apps = append(apps, c)
+		}
+	}
+	containers = apps
+
 	var attrs []string
 
 	// service.namespace:
